@@ -18,11 +18,11 @@ func init() {
 }
 
 type sqlTable struct {
-	cols    map[string]string // column -> declared text
-	unique  map[string]bool   // single-column UNIQUE / PRIMARY KEY
-	pk      []string
-	fkSess  string // ON DELETE action of FOREIGN KEY(session) REFERENCES sessions(id)
-	pos     string
+	cols   map[string]string // column -> declared text
+	unique map[string]bool   // single-column UNIQUE / PRIMARY KEY
+	pk     []string
+	fkSess string // ON DELETE action of FOREIGN KEY(session) REFERENCES sessions(id)
+	pos    string
 }
 
 var (
